@@ -10,7 +10,7 @@ CONSTANTS OutFile, Tier
 VARIABLE x
 
 Thorough == Tier = "thorough"
-SmallV == IF Thorough THEN 40 ELSE 30
+SmallV == IF Thorough THEN 36 ELSE 24
 
 \* ---- width
 SqK == {1, 2, 3, 5, 10, 11, 12, 31, 32, 33, 34, 100, 181, 255, 256, 1000, 4096, 23170, 32767, 32768}
@@ -46,7 +46,7 @@ SetOf(V, kind) ==
        [] kind = "swap"  -> [cur |-> c, prev |-> [i \in 1..V |-> c[V + 1 - i]], next |-> Fresh(V, V \div 2)]
 
 Structural(V) == LET W == Width(V) IN
-  {a \in {-1, 0, 1, W - 1, W, W + 1, 2 * W - 1, 2 * W, V \div 2, V - W - 1, V - W, V - W + 1, V - 2, V - 1, V, V + 1,
+  {a \in {-1, 0, W - 1, W, 2 * W - 1, V \div 2, V - W - 1, V - W, V - 1, V,
           (V \div W) * W - 1, (V \div W) * W, ((V - 1) \div W) * W} : a >= -1 /\ a <= V + 1}
 \* key ids asked of ValidatorManager.IsNeighbor for probe a: every id for small sets; for large ones the
 \* keys of all related validators plus a residue class of unrelated ids
@@ -62,7 +62,7 @@ SetCase(V, kind) ==
       matrix |-> IF V <= SmallV /\ kind = "same" THEN 1 ELSE 0,          \* the pair matrix depends on V only
       probes |-> [i \in 1..Len(pr) |-> [a |-> pr[i], kq |-> IF pr[i] >= 0 /\ pr[i] < V THEN KeyQueries(s, V, u, pr[i]) ELSE <<>>]]]
 KindFor(V) == CHOOSE k \in Kinds : \E i \in 0..8 : i = V % 9 /\ k = <<"same", "rot1", "rotW", "fresh", "short", "long", "empty", "dup", "swap">>[i + 1]
-BigQuick == {48, 49, 50, 63, 64, 65, 99, 100, 101, 341, 342, 1023, 1024, 1025, 1088, 1089, 1090, 1100}
+BigQuick == {25, 26, 35, 36, 37, 48, 49, 50, 63, 64, 65, 99, 100, 101, 341, 1023, 1024, 1088, 1089, 1090, 1100}
 SetCases ==
   {SetCase(V, k) : V \in 0..SmallV, k \in Kinds}
   \cup {SetCase(V, KindFor(V)) : V \in (IF Thorough THEN (SmallV + 1)..1100 ELSE BigQuick)}
